@@ -646,7 +646,7 @@ func runConverge(c *Case) ([]Obs, any) {
 			create(p[0])
 		}
 	}
-	f := newFlowNode(store, bu, tu, 2000, start)
+	f := newFlowNodeCfg(store, bu, tu, testCfg{delay: 2000, mempool: cfgInt(c, "mempool", 0) != 0}, start)
 	f.node.VerifState().MarkConnected()
 	w := &convWorld{f: f, bu: bu, su: su, start: start, parents: parents, m: int(cfgInt(c, "m", 2000)),
 		best: []int64{0}, chanl: []cmsg{{kind: 1}}, bg: cfgInt(c, "bgblocks", 0) != 0}
